@@ -472,7 +472,12 @@ impl SourceTree {
             root,
         };
 
-        for (index, (path, content)) in iter.into_iter().enumerate() {
+        // ids follow the paths, not the order in which the caller happened to enumerate the
+        // files (a directory listing, a hash map): ids are part of every span
+        let mut files: Vec<(PathBuf, String)> = iter.into_iter().collect();
+        files.sort_by(|a, b| a.0.cmp(&b.0));
+
+        for (index, (path, content)) in files.into_iter().enumerate() {
             res.sources.insert(path.clone(), content);
             res.source_ids.insert((index + 1) as u16, path);
         }
